@@ -153,7 +153,8 @@ CLAIMED = {
              "huge-length-field and random buffers. For GET LBA STATUS, PERSISTENT RESERVE IN / READ KEYS and REPORT LUNS the REGENERATED decoder bodies themselves are proved total on EVERY byte string under Model/Py.v: "
              "with fuel len(data)+3 they return a value (no exception, no fuel exhaustion) that is spelled out (C11_py_*_every_input, C11_py_no_divergence); the same for the two decoders whose loop stride is READ FROM THE BUFFER — "
              "REPORT PRIORITY (descriptor length field: zero, or past the end), REPORT TARGET PORT GROUPS (two nested loops, the inner one bounded by a count from the buffer and by the bytes that remain; list lengths bounded by the buffer: C11_py_rtpg_linear) "
-             "and READ ELEMENT STATUS (pages x descriptors with strides and stop conditions from the buffer, five conditional parts: returns Ok within 2 len + 4 units of fuel on every byte string, by a generic decreasing-measure rule for while loops). A second, "
+             "and READ ELEMENT STATUS (pages x descriptors with strides and stop conditions from the buffer, five conditional parts: returns Ok within 2 len + 4 units of fuel on every byte string, by a generic decreasing-measure rule for while loops); "
+             "C11_py_loop_decoders_return_on_every_input states it for all six loop-carrying decoders at once. A second, "
              "process-level budget (CPU time per call, batches under a deadline, bisected) covers work inside C code (regular expressions) and nested sense descriptors.",
         ref="DESIGN.md §4 C11",
         note="Trusted: Coq kernel + vm_compute; the loop-skeleton translator (fail-closed: unknown loop shapes are listed and must be empty); "
@@ -227,7 +228,8 @@ CLAIMED = {
              "structures plus every TransportID and designator kind are round-tripped through the real parser/builder pairs on every run. Both directions of a list structure over the REGENERATED bodies of builder and decoder (Gen/PyFuncs.v under Model/Py.v): GET LBA STATUS "
              "built from any number of complete valid descriptor dictionaries has the standard layout with an honest PARAMETER DATA LENGTH, and decoding what was built "
              "returns the dictionaries whole and in order (C06_py_getlbastatus_build, C06_py_getlbastatus_parse_inverts_build; the same for REPORT LUNS, whose builder is proved to follow the order of the caller's list: C06_py_reportluns_*; "
-             "for REPORT PRIORITY, whose descriptors carry their own length (C06_py_reportpriority_*), and for REPORT TARGET PORT GROUPS, a list of groups each with its own list of ports (C06_py_rtpg_*: any number of groups and ports)). Rebuilds are also run with the keys of every "
+             "for REPORT PRIORITY, whose descriptors carry their own length (C06_py_reportpriority_*), and for REPORT TARGET PORT GROUPS, a list of groups each with its own list of ports (C06_py_rtpg_*: any number of groups and ports, both header formats); every TransportID kind of fixed size "
+             "(FC, SBP, SRP, SAS, SOP) and the iSCSI TransportID (TPID format 00b, every ASCII name) decode to what they were built from (C06_py_transport_id_*, C06_py_iscsi_transport_id_round_trip)). Rebuilds are also run with the keys of every "
              "dictionary reversed / shuffled, with 10..130 list entries, and with UTF-8 names.",
         ref="DESIGN.md §4 C06",
         note="Trusted: Coq kernel + vm_compute; translator; the canonical-response generator tools/spec_resp.py. Partial: how builders and "
